@@ -218,6 +218,21 @@ def tableValue (rows : List Row) (mask : Nat) : Option Bool :=
   | [r] => some r.result
   | _ => none
 
+/-- `optvalue|form|value (hex)|exit class`: a value given to -f / -c is accepted exactly when it is one of the fifteen
+spellings (`Cli.filterOfString`); anything else is a usage error, never a panic -/
+def handleC12OptValue (fields : List String) : Verdict :=
+  match fields with
+  | [_form, value, exitClass] =>
+    match (unhex value).bind String.fromUTF8? with
+    | some v =>
+      let expected := if (Cli.filterOfString v).isSome then "ok" else "err"
+      let o := if exitClass == "panic" then some s!"the tool panicked (exit status 101) on the option value {repr v}"
+        else if exitClass == "signal" then some "the tool was killed by a signal"
+        else none
+      { modelOk := exitClass == expected, modelOut := expected, oracle := o, nontrivial := expected == "ok" }
+    | none => Verdict.badLine "unreadable option value"
+  | _ => Verdict.badLine "optvalue line needs three fields"
+
 /-- `order|text|cls|ordering (hexname:id,… for the API form, or T:<hex text> for a file)|ocls|
 vars default|result default|vars ordered|result ordered|roundtrip` -/
 def handleC11 (fields : List String) : Verdict :=
